@@ -128,6 +128,43 @@ fn generate_all(rng: &mut Rng, tier: Tier, emit: &mut dyn FnMut(String)) {
         }
         emit(format!("mtp {} {} {} {}", rng.pick(W_P), threads, per, fmt_script(&readings)));
     }
+    // ---- the timed branch `now >= last_warning + interval`, deterministically: a PAUSED tokio clock (the generator uses
+    // tokio::time::Instant), advanced by explicit amounts before each call
+    emit("seqt 0/5 0,4,1,0,5,4,1 9,9,9,9,9,9,9".into());
+    for _ in 0..1200 * scale {
+        let calls = 1 + rng.below(30) as usize;
+        let ivl = *rng.pick(&[1u64, 2, 1000, 1_000_000, 1_000_000_000, 0]);
+        let w = if rng.chance(1, 12) { "d".to_owned() } else { format!("{}/{}", rng.pick(&[0u64, 0, 1, 2, 1_000_000]), ivl) };
+        let ivl = if w == "d" { 1_000_000_000 } else { ivl };
+        let advs: Vec<String> = (0..calls)
+            .map(|_| match rng.below(8) { 0 => 0, 1 => 1, 2 => ivl.saturating_sub(1), 3 => ivl, 4 => ivl + 1, 5 => ivl / 2, 6 => rng.below(2 * ivl + 2), _ => 0 }.to_string())
+            .collect();
+        // skew-heavy scripts: the clock mostly stands still or steps back, so most calls are eligible to warn
+        let mut cur = BASE + rng.below(1000);
+        let script: Vec<Option<u64>> = (0..calls)
+            .map(|i| {
+                if i > 0 {
+                    match rng.below(10) { 0 => cur += 5_000_000, 1 | 2 | 3 => cur = cur.saturating_sub(rng.below(3_000_000)), 4 => return None, _ => {} }
+                }
+                Some(cur)
+            })
+            .collect();
+        emit(format!("seqt {} {} {}", w, advs.join(","), fmt_script(&script)));
+    }
+    // ---- the statement API: set / get / clone / append on a real Statement and on Batches of every type
+    for k in ["st", "bl", "bu", "bc", "wl", "wu", "wc"] {
+        emit(format!("api {} g.s5.g.c.g.a.g.sn.g.s-7.g", k));
+    }
+    for _ in 0..600 * scale {
+        let kind = *rng.pick(&["st", "bl", "bu", "bc", "bc", "wl", "wu", "wc", "wc"]);
+        let n = 2 + rng.below(9);
+        let mut ops: Vec<String> = Vec::new();
+        for _ in 0..n {
+            ops.push(match rng.below(8) { 0 | 1 | 2 => format!("s{}", rng.i64_boundary()), 3 => "sn".into(), 4 => "c".into(), 5 => "a".into(), _ => "g".into() });
+        }
+        ops.push("g".into());
+        emit(format!("api {} {}", kind, ops.join(".")));
+    }
     // ---- paced rounds on the REAL clock (the busy-wait lets the clock get ahead of the counter)
     for _ in 0..40 * scale {
         emit(format!(
@@ -369,6 +406,100 @@ pub fn run(case: &str, ctx: &mut Ctx) -> String {
             }
             let vals = if res.is_empty() { "-".to_owned() } else { res.iter().map(|r| r.map_or("P".to_owned(), |v| v.to_string())).collect::<Vec<_>>().join(",") };
             with_counts(vals, &counts)
+        }
+        "seqt" if w.len() == 4 => {
+            let Some(warn) = parse_warn(w[1]) else { return "bad-case".into() };
+            let Some(advs) = w[2].split(',').map(|a| a.parse::<u64>().ok()).collect::<Option<Vec<u64>>>() else { return "bad-case".into() };
+            let script = parse_script(w[3]);
+            let counts = Arc::new(WarnCount::default());
+            let dispatch = tracing::Dispatch::new(WarnSub(Arc::clone(&counts)));
+            // paused clock: tokio::time::Instant::now() (what compute_next reads, timestamp_generator.rs:12, 114) moves only
+            // when advanced
+            let rt = tokio::runtime::Builder::new_current_thread().enable_time().start_paused(true).build().unwrap();
+            let res: Vec<Option<i64>> = tracing::dispatcher::with_default(&dispatch, || {
+                rt.block_on(async {
+                    let generator = build(warn);
+                    clock::install(script);
+                    let mut res = Vec::with_capacity(advs.len());
+                    for a in &advs {
+                        tokio::time::advance(Duration::from_nanos(*a)).await;
+                        res.push(catch_unwind(AssertUnwindSafe(|| generator.next_timestamp())).ok());
+                    }
+                    clock::uninstall();
+                    res
+                })
+            });
+            let vs: Vec<i64> = res.iter().flatten().copied().collect();
+            check_strict(&vs, "single thread, warnings configured, paused clock", ctx);
+            if !matches!(warn, Warn::Times(_, None)) && res.iter().any(|r| r.is_none()) {
+                ctx.fail("next_timestamp() panicked although last_warning + warning_interval is representable");
+            }
+            let vals = if res.is_empty() { "-".to_owned() } else { res.iter().map(|r| r.map_or("P".to_owned(), |v| v.to_string())).collect::<Vec<_>>().join(",") };
+            with_counts(vals, &counts)
+        }
+        "api" if w.len() == 3 => {
+            use scylla::statement::batch::{Batch, BatchType};
+            use scylla::statement::unprepared::Statement;
+            enum Obj {
+                St(Statement),
+                B(Batch),
+            }
+            let text = "INSERT INTO ks.t (pk, v) VALUES (?, ?)";
+            let with = |ty| Obj::B(Batch::new_with_statements(ty, vec![Statement::new(text).into()]));
+            let (mut obj, what) = match w[1] {
+                "st" => (Obj::St(Statement::new(text)), "Statement"),
+                "bl" => (Obj::B(Batch::new(BatchType::Logged)), "Logged Batch"),
+                "bu" => (Obj::B(Batch::new(BatchType::Unlogged)), "Unlogged Batch"),
+                "bc" => (Obj::B(Batch::new(BatchType::Counter)), "Counter Batch"),
+                "wl" => (with(BatchType::Logged), "Logged Batch (new_with_statements)"),
+                "wu" => (with(BatchType::Unlogged), "Unlogged Batch (new_with_statements)"),
+                "wc" => (with(BatchType::Counter), "Counter Batch (new_with_statements)"),
+                _ => return "bad-case".into(),
+            };
+            // ORACLE (C18: "a timestamp set explicitly ... unchanged"): get returns what was set last (None on a fresh value)
+            let mut expected: Option<i64> = None;
+            let mut gets: Vec<String> = Vec::new();
+            for op in w[2].split('.') {
+                match op {
+                    "g" => {
+                        let got = match &obj {
+                            Obj::St(s) => s.get_timestamp(),
+                            Obj::B(b) => b.get_timestamp(),
+                        };
+                        if got != expected {
+                            ctx.fail(format!("{}: set_timestamp({:?}) was the last set, get_timestamp() returns {:?}", what, expected, got));
+                        }
+                        gets.push(got.map_or("n".to_owned(), |v| v.to_string()));
+                    }
+                    "c" => {
+                        obj = match &obj {
+                            Obj::St(s) => Obj::St(s.clone()),
+                            Obj::B(b) => Obj::B(b.clone()),
+                        }
+                    }
+                    "a" => {
+                        if let Obj::B(b) = &mut obj {
+                            b.append_statement(Statement::new(text));
+                        }
+                    }
+                    _ => {
+                        let t = if op == "sn" {
+                            None
+                        } else {
+                            match op.strip_prefix('s').and_then(|v| v.parse::<i64>().ok()) {
+                                Some(v) => Some(v),
+                                None => return "bad-case".into(),
+                            }
+                        };
+                        expected = t;
+                        match &mut obj {
+                            Obj::St(s) => s.set_timestamp(t),
+                            Obj::B(b) => b.set_timestamp(t),
+                        }
+                    }
+                }
+            }
+            if gets.is_empty() { "-".into() } else { gets.join(",") }
         }
         "mtw" if w.len() == 4 => {
             let (Some(warn), Ok(calls)) = (parse_warn(w[1]), w[2].parse::<usize>()) else { return "bad-case".into() };
